@@ -110,7 +110,7 @@ def sh_cpu(cmd, cpu=CPU_LIMIT, wall=WALL_LIMIT):
     """-> (rc, out, err).  rc == "cpu": the process used up its CPU-time limit (reported as non-termination);
     rc == "wall": the wall clock expired before the CPU limit (load): inconclusive, counted, never a violation.
     The limit is set by the shell that execs the command (no preexec_fn: these calls run on 16 threads)."""
-    wrapped = ["/bin/sh", "-c", f'ulimit -H -t {cpu + 5}; ulimit -S -t {cpu}; exec "$@"', "sh"] + [str(c) for c in cmd]
+    wrapped = ["/bin/sh", "-c", f'ulimit -S -t {cpu}; ulimit -H -t {cpu + 5}; exec "$@"', "sh"] + [str(c) for c in cmd]
     try:
         rc, out, err = sh(wrapped, timeout=wall)
     except subprocess.TimeoutExpired:
@@ -632,6 +632,43 @@ def value_docs(rng, n):
         out.append((f"value {i}: <{tag}> " + (", ".join(what) or "valid"), text.encode("utf-8"), -1, expect))
     return out
 
+
+# regression inputs with an expectation: file name -> ("refuse", line)
+CORPUS_EXPECT = {"point-without-id-reuses-previous.gkf": ("refuse", 7, ("id", "<absent>"))}
+EXPECT_LINE = {}          # sha(document) -> line the diagnostic of gama-local must name (filled by located_docs)
+
+
+def located_docs(rng, n):
+    """a refused start tag that SPANS THREE LINES, followed ON ITS CLOSING LINE by another (valid) element: the diagnostic must
+    name the line where the offending tag STARTS.  gama-local feeds expat line by line, so the handler of the offending tag
+    and that of the next element run in the same chunk; the harness feeds the whole document as one chunk, where every
+    later start tag runs in the same chunk.  -> list of (label, bytes, split, ("refuse", line, (attr, value)))"""
+    leaf = [c for c in value_contexts() if c[0] in ("point", "direction", "distance", "angle", "s-distance", "z-angle", "azimuth",
+                                                    "dh", "vec", "parameters")]
+    out = []
+    for i in range(n):
+        tag, attrs, wrap = leaf[i % len(leaf)] if i < len(leaf) else rng.choice(leaf)
+        cand = [j for j, (k, _v) in enumerate(attrs) if (tag, k) in DOC_NUMERIC]
+        if not cand:
+            continue
+        j = rng.choice(cand)
+        bad = list(attrs)
+        v = rng.choice(["abc", "1e", "1.2.3", "-", "1x", "NaN", "1,5", "--1"])
+        bad[j] = (bad[j][0], v)
+        text = doc_text(wrap(El(tag, bad)))
+        one = "<" + tag + "".join(f' {k}="{esc(x)}"' for k, x in bad) + "/>\n"
+        if text.count(one) != 1:
+            continue
+        valid = "<" + tag + "".join(f' {k}="{esc(x)}"' for k, x in attrs) + "/>"
+        multi = "<" + tag + "\n" + "\n".join(f'    {k}="{esc(x)}"' for k, x in bad) + "/>" + valid + "\n"
+        pos = text.find(one)
+        line = text.count("\n", 0, pos) + 1
+        doc = (text[:pos] + multi + text[pos + len(one):]).encode("utf-8")
+        EXPECT_LINE[sha(doc)] = line
+        out.append((f"located {i}: <{tag}> over 3 lines {bad[j][0]}={v!r}, next element on its closing line", doc, -1,
+                    ("refuse", line, (bad[j][0], v))))
+    return out
+
 # ------------------------------------------------------------------ correspondence
 
 def hexs(b):
@@ -714,6 +751,19 @@ def run_docs(ctx, corr, exe, docs, stream):
         elif not expat_err and vO != O:
             corr.disagree(stream + "-values", payload, O, vO, "value model: outcome differs")
         # ---- oracle on the implementation's own answers
+        if O[0].startswith("O parser") and not expat_err:
+            # first error wins INCLUDING its line: the diagnostic names the line of the event during which error() was first
+            # recorded (the harness prints expat's current line with every event), whatever was handled after it in the chunk
+            Elines = [l for l in out if l.startswith("E ")]
+            jerr = next((j for j, r in enumerate(R) if r.split()[2] != "-"), None)
+            if jerr is not None and jerr < len(Elines):
+                t = Elines[jerr].split()
+                evline = int(t[3]) if t[1] == "start" else int(t[2])
+                corr.count("located_first_error_checks")
+                if int(O[0].split()[2]) != evline:
+                    corr.fail(f"the diagnostic names line {O[0].split()[2]} but error() was first recorded while handling the "
+                              f"{t[1]} event of line {evline} (a later error() call overwrote the line?) : {label}", payload,
+                              "CoreParser::error", "\n".join(out[-6:]))
         if O[0].startswith("O parser"):
             line = int(O[0].split()[2])
             if line < 1:
@@ -1171,15 +1221,19 @@ def run_readers(ctx, corr):
 
 # ------------------------------------------------------------------ executable-level search / oracle
 
+# the diagnostic of gama-local for a refused input, in the languages the option sweep uses (en, cz)
+LINE_RX = r"(?:On line number|Na řádku číslo) (-?\d+) :"
 SAN_MARK = re.compile(r"ERROR: AddressSanitizer|runtime error:|ERROR: LeakSanitizer|AddressSanitizer:DEADLYSIGNAL|UndefinedBehaviorSanitizer")
 
 
-def run_gama(gl, data, extra=(), timeout=None):
+def run_gama(gl, data, extra=(), timeout=None, xml=True):
     with tempfile.NamedTemporaryFile(prefix="c11_", suffix=".gkf", delete=False) as f:
         f.write(data)
         name = f.name
     try:
-        return sh_cpu([str(gl), name, "--text", "/dev/null", "--xml", "/dev/null"] + list(extra))
+        # with --xml a refusal by the parser is written into the XML file as an error document and the exit status is 0;
+        # without it the diagnostic goes to stderr and the exit status is 3 (the form the located-diagnostic oracle reads)
+        return sh_cpu([str(gl), name, "--text", "/dev/null"] + (["--xml", "/dev/null"] if xml else []) + list(extra))
     finally:
         os.unlink(name)
 
@@ -1198,7 +1252,7 @@ def judge(rc, out, err):
             site = next((x for x in fr if x.startswith("GNU_gama")), fr[0])
         return (f"sanitizer report / abnormal exit rc={rc}: " + (m.group(1) if m else "signal"), site)
     if rc == 3:
-        m = re.search(r"On line number (-?\d+) :(.*)", err)
+        m = re.search(LINE_RX + r"(.*)", err)
         if not m:
             return ("refused by the parser without a line in the diagnostic", "gama-local main")
         if int(m.group(1)) < 1:
@@ -1219,6 +1273,10 @@ def exec_inputs(ctx, thorough_override=None):
     if corpus.exists():
         for f in sorted(corpus.glob("*.gkf")):
             inputs.append(("corpus " + f.name, f.read_bytes()))
+            if f.name in CORPUS_EXPECT:
+                EXPECT_LINE[sha(f.read_bytes())] = CORPUS_EXPECT[f.name][1]
+    for lab, d, _k, _e in located_docs(random.Random(f"{ctx.seed}-located"), 40 if not ctx.thorough else 300):
+        inputs.append((lab, d))
     files = sorted(_glob.glob(str(ctx.repo / "tests" / "gama-local" / "input" / "*.gkf")))
     small = [f for f in files if os.path.getsize(f) < 6000]
     for f in (files if thorough else rng.sample(files, min(10, len(files)))):
@@ -1321,7 +1379,7 @@ def exec_oracle(ctx, corr, inputs):
     def one(item):
         i, (lab, d) = item
         extra = opts[i % len(opts)] if i % 3 == 0 else ()
-        rc, out, err = run_gama(gl, d, extra)
+        rc, out, err = run_gama(gl, d, extra, xml=(i % 2 == 0 and sha(d) not in EXPECT_LINE))
         return i, lab, d, extra, rc, judge(rc, out, err), err
     t0 = time.time()
     with concurrent.futures.ThreadPoolExecutor(max_workers=16) as ex:
@@ -1331,6 +1389,14 @@ def exec_oracle(ctx, corr, inputs):
         corr.count("exec_rc_%s" % rc)
         if rc == "wall":
             wall_inconclusive(corr, f"gama-local [{lab}]")
+        want = EXPECT_LINE.get(sha(d))
+        if want is not None and not verdict and rc not in ("wall", "cpu"):
+            corr.count("exec_located_checks")
+            m = re.search(LINE_RX, err)
+            if rc != 3 or not m:
+                verdict = (f"expected a refusal by the parser naming line {want}, got exit status {rc}", "gama-local main")
+            elif int(m.group(1)) != want:
+                verdict = (f"the diagnostic names line {m.group(1)}, the offending element starts on line {want}", "CoreParser::error")
         if verdict:
             corr.fail(f"gama-local: {verdict[0]} [{lab}]", {"stream": "exec", "label": lab, "options": list(extra),
                                                             "doc": d.decode("utf-8", "replace"), "doc_hex": d.hex() if len(d) < 20000 else None},
@@ -1349,7 +1415,8 @@ def correspond(ctx, corr):
     corpus = ctx.verif / "corpus" / "C11"
     if corpus.exists():
         for f in sorted(corpus.glob("*.gkf")):
-            docs.append(("corpus " + f.name, f.read_bytes(), -1, None))
+            docs.append(("corpus " + f.name, f.read_bytes(), -1, CORPUS_EXPECT.get(f.name)))
+    docs += located_docs(rng, ctx.size(60, 600))
     for lab, t in probe_docs():
         docs.append((lab, t.encode(), -1, None))
     files = sorted(_glob.glob(str(ctx.repo / "tests" / "gama-local" / "input" / "*.gkf")))
@@ -1429,8 +1496,6 @@ def classify(ctx, failure):
         return "C11-svd-empty-ub"
     if "heap-buffer-overflow" in w and "LocalNetwork::Unknown::operator=" in det and "LocalNetwork::project_equations" in det:
         return "C11-unknowns-stale-index"
-    if "heap-buffer-overflow" in w and "TestLinearizationVisitor::visit" in det and "GNU_gama::local::TestLinearization(" in det:
-        return "C11-linearization-stale-index"      # round 4, corpus/C11/pending/zangle-linearization-test-oob.gkf (effective once listed as known)
     if ("does not terminate" in w) and re.search(r'val="[^"]*(1e999|1e300|1e18|inf)[^"]*"', doc):
         return "C11-norm-rad-hang"
     if "rc=87" in w and re.search(r"memrep\.h:\d+:\d+: runtime error: null pointer passed as argument", det):
